@@ -14,6 +14,7 @@ from . import rules_str as RST
 from . import rules_parse as RP
 from . import rules_width as RW
 from . import rules_attr as RAT
+from . import rules_bytes as RBY
 from . import rules_holder as RHO
 from . import rules_tree as RT
 
@@ -57,11 +58,15 @@ GUARD_TABLE = {
 
 def C12(ctx):
     u = need_unit(ctx, "locks")
+    # (the type-level witnesses first: they stay decidable when a guard's representation changes beyond what the abstract
+    # execution below can model)
+    ctx.rule("W2.guard-types", "guards and spinlocks are non-copyable, unique_lock/shared_lock movable, and the guard of a "
+             "byte-aligned mutex is larger than a pointer: its ownership flag cannot live in the mutex address (static_asserts)", 5)
+    RO.check_typelevel(ctx, "W2.guard-types", "guards:", 5)
     RG.check_guards(ctx, u, GUARD_TABLE)
     RG.check_swap(ctx, u, ["frg::unique_lock", "frg::shared_lock"])
     RA.check_spinlocks(ctx, u)
-    ctx.rule("W2.guard-types", "guards and spinlocks are non-copyable, unique_lock/shared_lock movable (static_asserts)", 4)
-    RO.check_typelevel(ctx, "W2.guard-types", "guards:", 4)
+    RO.check_members_initialised(ctx, u, ["frg::ticket_spinlock", "frg::simple_spinlock", "frg::unique_lock", "frg::shared_lock", "frg::lock_guard"])
     return ("Structural part of C12 only: guard classes (unique_lock, shared_lock, qs lock_guard) are abstractly "
             "executed over their event CFGs with the ownership flag and the sequence of mutex calls as state. "
             "Not decided: mutual exclusion / FIFO hand-over over interleavings.")
@@ -71,6 +76,8 @@ def C05(ctx):
     u = need_unit(ctx, "slab")
     RS.check_C05(ctx, u)
     RS2.check_bucket_of_slab(ctx, u)
+    # the library's own mutexes, as the pool's Mutex: a counter that starts with whatever its storage held blocks for ever
+    RO.check_members_initialised(ctx, need_unit(ctx, "locks"), ["frg::ticket_spinlock", "frg::simple_spinlock"])
     if ctx.tier == "thorough":
         u2 = need_unit(ctx, "slab", extra_flags=("-DFRG_SLAB_TRACK_REGIONS",), tag="track")
         RS.check_C05(ctx, u2, config=" [FRG_SLAB_TRACK_REGIONS]")
@@ -101,6 +108,7 @@ def C11(ctx):
     RQ.check_qs_deferred_owed(ctx, u)
     RQ.check_qs_full_fences(ctx, u)
     RW.check_widths(ctx, u, ["frg::qs_agent", "frg::qs_domain"])
+    RO.check_members_initialised(ctx, u, ["frg::qs_agent", "frg::qs_domain", "frg::qs_node", "frg::_list::intrusive_list_hook"])
     return ("Structural clauses of C11: the domain mutex guard releases through unlock(); counter/ack-count/agent-count "
             "writes are under the domain mutex; run() unlinks and resets the node before the callback and never touches "
             "it afterwards; callback only under acquire-loaded counter >= target; both barrier functions use the same "
@@ -108,9 +116,23 @@ def C11(ctx):
             "callback. Not decided: the counting protocol over interleavings (deferred periods, joining agents), fairness.")
 
 
+def _storage_layout(ctx):
+    ctx.rule("W2.storage-layout", "raw storage: aligned_storage has exactly the alignment it is asked for (extended alignments "
+             "included), aligned_union fits every member in every order, and the holders, small_vector's inline side and variant "
+             "are as aligned as an over-aligned element -- static_asserts evaluated by the compiler", 5)
+    RO.check_typelevel(ctx, "W2.storage-layout", "storage:", 5)
+
+
+def _composition_by_reference(ctx):
+    ctx.rule("W2.composition-by-reference", "frg::get<Tag>(composition *) and composition::get are references to the stored "
+             "functor, also for a small trivially copyable one (a stateful locator or comparator sees its own updates)", 1)
+    RO.check_typelevel(ctx, "W2.composition-by-reference", "compose:", 1)
+
+
 def C10(ctx):
     u = need_unit(ctx, "radix")
     RR.check_C10(ctx, u)
+    _storage_layout(ctx)
     RW.check_widths(ctx, u, ["frg::rcu_radixtree"])
     return ("Publication-order half of C10: release on every store a reader can see, acquire on every load in find(), fresh "
             "nodes completely initialised (header, all 16 link slots, value, old subtree linked) before the publishing store "
@@ -121,6 +143,7 @@ def C10(ctx):
 def C09(ctx):
     u = need_unit(ctx, "radix")
     RR.check_C09(ctx, u)
+    _storage_layout(ctx)
     RW.check_widths(ctx, u, ["frg::rcu_radixtree"])
     ctx.rule("K.stale-derived", "in the radix tree a value loaded through the cursor node (mask, index, child) is not used "
              "after the cursor moved to another node without being reloaded", 4)
@@ -152,6 +175,12 @@ def C13(ctx):
     RO.check_raw_storage_moves(ctx, u, ["frg::small_vector"])
     RO.check_swap_targets(ctx, u, ["frg::small_vector"])
     RW.check_countdowns(ctx, u, ["frg::vector", "frg::small_vector", "frg::dyn_array"])
+    RO.check_members_initialised(ctx, u, ["frg::vector", "frg::small_vector", "frg::dyn_array", "frg::_list::intrusive_list",
+                                          "frg::_list::intrusive_list_hook", "frg::list"])
+    _storage_layout(ctx)
+    _composition_by_reference(ctx)
+    RBY.check_bytewise(ctx, u)
+    RBY.check_bytewise(ctx, need_unit(ctx, "scalars"))
     return ("Structural clauses of C13: emptiness polarity, front/back subscripts, swap completeness, relocation ranges "
             "in growth, forwarded arguments consumed once, intrusive list link protocol. Not decided: equality with a "
             "reference sequence after arbitrary histories.")
@@ -198,6 +227,7 @@ def C16(ctx):
     RR.check_entry_reuse(ctx, ur)
     RST.check_free_after_copies(ctx, ust)         # nothing is read from a buffer after it went back to the allocator
     RH.check_trailing_pointer(ctx, uh)            # a node is unlinked before it is destroyed: no freed node stays reachable
+    _storage_layout(ctx)
     return ("Structural clauses of C16 over vector, small_vector, dyn_array, list, hash_map, basic_string, unique_ptr, "
             "unique_memory, optional, expected, variant, manual_box and the radix tree: every allocator block escapes to an "
             "owner, is returned, handed to a parameter that can own it, or is freed on every path (O1); allocating classes have "
@@ -214,6 +244,8 @@ def C14(ctx):
     RH.check_C14(ctx, u)
     RH.check_trailing_pointer(ctx, u)
     RH.check_next_after_relink(ctx, u)
+    RH.check_end_sentinel(ctx, u)
+    RO.check_members_initialised(ctx, u, ["frg::hash_map", "frg::hash_map::chain", "frg::hash_map::iterator", "frg::hash_map::const_iterator"])
     RW.check_widths(ctx, u, ["frg::hash_map"])
     RO.check_init_reads(ctx, u, ["frg::hash_map"])
     RO.check_members_by_value(ctx, u, ["frg::hash_map"])
@@ -221,6 +253,7 @@ def C14(ctx):
              "value out first; the destructor and rehash read `next` first)", 2)
     RO.check_no_use_after_release(ctx, u, [f for f in u.functions if f.owner_cls == "frg::hash_map"])
     RO.check_empty(ctx, u, ["frg::hash_map"])
+    RST.check_view_equality(ctx, need_unit(ctx, "string"))      # the equality of the library's own key type
     return ("Structural clauses of C14: no bucket index survives a capacity change, indices are paired with the table they "
             "were reduced for, every index is hasher(key concerned) mod capacity, construct/++_size and destruct/--_size "
             "balance on every path, growth precedes the bucket computation in insert(), no use of a node after its release. "
@@ -233,6 +266,7 @@ def C18(ctx):
         u = need_unit(ctx, "bits", extra_flags=("-DFRG_VERIF_BITS=%d" % nb,), tag="N%d" % nb)
         RBI.check_C18(ctx, u, nb)
     RBI.check_concat(ctx, u)
+    RBI.check_minmax(ctx, u)
     return ("Structural clauses of C18: constant subscripts of array within bounds; bitset constructors initialise every "
             "word and mask; dirty word writes are followed by mask_last_bit(); shift operators bound the shift amount before "
             "any dependent access; all shift counts within the operand width; no unconditional self-recursion; bit-reference "
@@ -250,6 +284,7 @@ def C15(ctx):
     RG.check_swap(ctx, u, ["frg::basic_string"])
     RO.check_empty(ctx, u, ["frg::basic_string"])
     RO.check_grow_then_read_arg(ctx, u, ["frg::basic_string"], elem_types=("char", "char16_t", "wchar_t", "char32_t"))
+    RBY.check_bytewise(ctx, u)
     if ctx.tier == "thorough":
         u2 = need_unit(ctx, "string", extra_flags=("-DFRG_VERIF_WIDE",), tag="wide")
         RST.check_string_buffers(ctx, u2, tag=" [char16_t]", only_chart="char16_t")
@@ -291,6 +326,9 @@ def C20(ctx):
     RW.check_widths(ctx, uf, ["frg::"])
     RP.check_sized_text(ctx, uf)
     RP.check_grouping_cursor(ctx, uf)
+    RP.check_group_size_current(ctx, uf)
+    RBY.check_bytewise(ctx, uf)
+    RBY.check_bytewise(ctx, us)
     ctx.rule("R.self-recursion", "no parser or helper calls itself on every path", 0)
     RBI.check_self_recursion(ctx, uf, [f for f in uf.functions if f.uq.startswith("frg::")])
     RBI.check_self_recursion(ctx, us, [f for f in us.functions if f.uq.startswith("frg::")])
@@ -314,6 +352,8 @@ def C19(ctx):
     RP.check_field_layout(ctx, uf)
     RP.check_directive_state(ctx, uf)
     RP.check_strnlen_bounded(ctx, uf)
+    RP.check_group_size_current(ctx, uf)
+    RBY.check_bytewise(ctx, uf)
     RW.check_widths(ctx, uf, ["frg::"])
     ctx.rule("B6.fmt-width-range", "the {}-spec parser rejects a width before the step that would overflow it (so an "
              "out-of-range width makes the spec malformed and it is echoed unchanged)", 1)
@@ -337,6 +377,7 @@ def C17(ctx):
     ctx.rule("W2.holder-constinit", "a manual_box of static storage duration is constant-initialised (decided by the compiler on a "
              "constinit declaration of the witness unit)", 1)
     RO.check_typelevel(ctx, "W2.holder-constinit", "holder:", 1)
+    _storage_layout(ctx)
     RHO.check_tuple_access(ctx, u)
     RHO.check_returns(ctx, u, [f for f in u.functions if (f.owner_cls or "") in HOLDERS])
     RHO.check_copy_selects_copy(ctx, u)
@@ -357,6 +398,10 @@ def C01(ctx):
     RS2.check_C01(ctx, u)
     RS2.check_size_arithmetic(ctx, u)
     RW.check_widths(ctx, u, ["frg::slab_pool"], masks=True)
+    # (the superblock fields of a frame are assigned by the two functions that construct frames, right after the construction)
+    RO.check_members_initialised(ctx, u, ["frg::_redblack::hook_struct", "frg::slab_pool::frame", "frg::slab_pool::slab_frame",
+                                          "frg::slab_pool::bucket", "frg::slab_pool"],
+                                 exempt=(("frg::slab_pool::frame", "sb_base"), ("frg::slab_pool::frame", "sb_reservation")))
     return ("Structural clauses of C01: size-class arithmetic as compiler-evaluated static_asserts for every size in three "
             "configurations; one frame look-up expression whose alignment equals the constructors' placement alignment; slab "
             "carving (overhead a multiple of the item size covering the header, objects at address+k*item_size below length); "
@@ -370,6 +415,8 @@ def C02(ctx):
     RS2.check_stale_after_remove(ctx, u)
     RS2.check_bucket_of_slab(ctx, u)
     RS2.check_counter_balance(ctx, u)
+    RS2.check_downcast_guarded(ctx, u)
+    RS2.check_allocator_forwards(ctx, u)
     RW.check_widths(ctx, u, ["frg::slab_pool"])
     return ("Structural clauses of C02: null/zero special cases and null tests before any header dereference; copy-then-free "
             "order and provenance of the copy length in realloc's fallback; in-place success only when the size fits; a new slab "
@@ -380,6 +427,7 @@ def C02(ctx):
 def C03(ctx):
     u = need_unit(ctx, "slab")
     RS2.check_C03(ctx, u)
+    RS2.check_allocator_forwards(ctx, u)
     RW.check_widths(ctx, u, ["frg::slab_pool"])
     return ("Structural clauses of C03: map length == recorded reservation, map result == recorded base; single unmap site fed "
             "from those two header fields read before poisoning and reached only for large frames; one page-accounting "
@@ -392,6 +440,7 @@ def C06(ctx):
     RT.check_C06(ctx, u)
     RO.check_init_reads(ctx, u, ["frg::_redblack::tree_struct", "frg::_redblack::tree_crtp_struct", "frg::_redblack::hook_struct"])
     RO.check_members_by_value(ctx, u, ["frg::_redblack::tree_struct"], min_fields=1)
+    RO.check_members_initialised(ctx, u, ["frg::_redblack::hook_struct", "frg::_redblack::tree_crtp_struct"])
     return ("Structural clauses of C06: mirror symmetry of every left/right case split of the red-black tree, hook reset on "
             "removal, parent/child and predecessor/successor pairing of link writes, the descent rules of both insert variants, "
             "loop progress. Not decided: validity of the colouring / height bound, in-order walk equals contents (global shape "
@@ -409,8 +458,10 @@ def C07(ctx):
 def C08(ctx):
     u = need_unit(ctx, "trees")
     RT.check_C08(ctx, u)
+    _composition_by_reference(ctx)
     RO.check_init_reads(ctx, u, ["frg::_pairing::pairing_heap"])
     RO.check_members_by_value(ctx, u, ["frg::_pairing::pairing_heap"], min_fields=1)
+    RO.check_members_initialised(ctx, u, ["frg::_pairing::pairing_heap_hook", "frg::_pairing::pairing_heap"])
     return ("Structural clauses of C08: merge symmetry and winner, hook resets in pop/remove, backlink pairing, detaching "
             "before merging in _collapse, accessor polarity, loop progress. Not decided: top() is a maximum after any history "
             "(heap order is a global shape invariant).")
